@@ -778,3 +778,92 @@ def file_dump(path):
             out.append((name, 'g' if isinstance(o, h5py.Group) else repr(o[()].tolist() if o.shape != () else o[()])[:200], at))
         f.visititems(visit)
     return out
+
+
+# ------------------------------------------------------------------ C19 stream: objects in unusual (but legal) internal states are not normalised by a save
+def deep_state(x, depth=0):
+    import emdfile as emd
+    if depth > 8:
+        return '...'
+    if isinstance(x, np.ndarray):
+        return ['nd', x.dtype.str if x.dtype.names is None else str(x.dtype), list(x.shape), list(x.strides), bool(x.flags.c_contiguous),
+                repr(x.tolist())[:400]]
+    if isinstance(x, (list, tuple)):
+        return [type(x).__name__, [deep_state(y, depth + 1) for y in x]]
+    if isinstance(x, dict):
+        return ['dict', [[repr(k), deep_state(v, depth + 1)] for k, v in x.items()]]
+    if isinstance(x, emd.Metadata):
+        return ['Metadata', x.name, deep_state(x._params, depth + 1)]
+    if isinstance(x, emd.PointListArray):
+        return ['PLA', x.name, str(x.dtype), list(x.shape), [[deep_state(x[i, j].data, depth + 1), str(x[i, j].dtype)] for i in range(x.shape[0]) for j in range(x.shape[1])],
+                deep_state(dict(x._metadata), depth + 1)]
+    if isinstance(x, emd.PointList):
+        return ['PL', x.name, deep_state(x.data, depth + 1), str(x.dtype), deep_state(dict(x._metadata), depth + 1)]
+    if isinstance(x, emd.Array):
+        return ['Array', x.name, deep_state(x.data, depth + 1), x.units, deep_state(x.dims, depth + 1), deep_state(x.dim_units, depth + 1), deep_state(x.dim_names, depth + 1),
+                deep_state(list(x.slicelabels), depth + 1) if x.is_stack else None, deep_state(dict(x._metadata), depth + 1),
+                [deep_state(v, depth + 1) for v in x._branch._dict.values()]]
+    if isinstance(x, emd.Node):
+        return [type(x).__name__, x.name, deep_state(dict(x._metadata), depth + 1), [deep_state(v, depth + 1) for v in x._branch._dict.values()]]
+    return [type(x).__name__, repr(x)[:80]]
+
+
+def gen_c19_state(rng):
+    return {'kind': 'state', 'what': rng.choice(['pla_cells', 'pla_cells', 'array_dims', 'md_values', 'pl_layout', 'array_layout']),
+            'mode': rng.choice(['w', 'o', 'a', 'ao']), 'seed': rng.randrange(1000), 'in_tree': rng.random() < 0.5}
+
+
+def run_c19_state(sc, scratch):
+    import emdfile as emd
+    rng = np.random.RandomState(sc['seed'])
+    w = sc['what']
+    if w == 'pla_cells':
+        # cells assigned PointLists whose field types differ from the array's (same field names: accepted by __setitem__)
+        pla = emd.PointListArray(dtype=[('x', '<i4'), ('y', '<i4')], shape=(2, 2), name='pla')
+        d = np.zeros(3, dtype=[('x', '<f8'), ('y', '<f8')]); d['x'] = rng.rand(3) * 10; d['y'] = rng.rand(3) * 10 - 5
+        pla[0, 1] = emd.PointList(data=d, name='odd')
+        d2 = np.zeros(2, dtype=[('x', '<i8'), ('y', '<u1')]); d2['x'] = [2 ** 40, 5]; d2['y'] = [200, 7]
+        pla[1, 0] = emd.PointList(data=d2, name='odd2')
+        obj = pla
+    elif w == 'array_dims':
+        obj = emd.Array(data=rng.rand(3, 4), name='a', dims=[[0, 5, 6], (1.5, 2.5)], dim_units=['nm', 'px'], dim_names=('r', 'c'))
+    elif w == 'md_values':
+        obj = emd.Node(name='n')
+        obj.metadata = emd.Metadata(name='m', data={'l': [3, 1, 2], 't': (2.5, 1), 'a': np.arange(6).reshape(2, 3)[:, ::2], 'd': {'z': [1.0, 2], 'k': (True, False)},
+                                                      's': 'text', 'n': None, 'np': np.float32(1.5), 'ls': ['b', 'a'], 'la': [np.arange(3), np.ones(2)]})
+    elif w == 'pl_layout':
+        base = np.zeros(8, dtype=[('x', '<f8'), ('y', '<i4'), ('z', '>f4')]); base['x'] = rng.rand(8); base['y'] = np.arange(8)[::-1]; base['z'] = rng.rand(8)
+        obj = emd.PointList(data=base[::2], name='pl')
+    else:
+        a = np.asfortranarray(rng.rand(3, 4, 2)) if sc['seed'] % 2 else rng.rand(6, 4)[::2, ::-1]
+        obj = emd.Array(data=a, name='a', slicelabels=['u', 'v', 'w'] if a.ndim == 3 else None)
+    top = obj
+    if sc['in_tree']:
+        top = emd.Root(name='root'); top.tree(obj)
+    p1 = os.path.join(scratch, 'c19s_%d_a.h5' % os.getpid()); p2 = os.path.join(scratch, 'c19s_%d_b.h5' % os.getpid())
+    for p in (p1, p2):
+        if os.path.exists(p):
+            os.remove(p)
+    before = deep_state(obj)
+    out = {'raised': None}
+    try:
+        with core.quiet():
+            emd.save(p1, top, mode=sc['mode'])
+    except BaseException as e:
+        out['raised'] = type(e).__name__ + ': ' + str(e)[:100]
+    after = deep_state(obj)
+    out['unchanged'] = before == after
+    if not out['unchanged']:
+        out['diff'] = first_diff(before, after)
+    if out['raised'] is None:
+        try:
+            with core.quiet():
+                emd.save(p2, top, mode=sc['mode'])
+            out['second_unchanged'] = deep_state(obj) == before
+            out['same_files'] = file_dump(p1) == file_dump(p2)
+        except BaseException as e:
+            out['second_raised'] = type(e).__name__ + ': ' + str(e)[:100]
+    for p in (p1, p2):
+        if os.path.exists(p):
+            os.remove(p)
+    return out
